@@ -1139,7 +1139,7 @@ Definition run_C03_session (binary : bool) (c : str) (ops : list sop) : val :=
 (* ------------------------------------------------------------------ the recursion of _resolve_fname (main.py:171-239) over a
    file-system oracle.  The decision with the _isglob flag (main.py:209: `elif _isglob and glob.has_magic(fname)`); names found
    by a pattern are resolved again with _isglob=False and the caller's archive option (main.py:215), the content of an archive
-   is resolved as the pattern <tmpdir>/**/*.* WITHOUT the archive option and with _isglob at its default (main.py:226-228). *)
+   is resolved as the pattern <tmpdir>/**/* WITHOUT the archive option and with _isglob at its default (main.py:226-228). *)
 Definition resolve_g (isglob : bool) (datadir example : str) (f : fname_arg) (a : archive_arg) : decision :=
   match f with
   | FBytes => DErrBytes
@@ -1165,17 +1165,20 @@ Definition resolve_g (isglob : bool) (datadir example : str) (f : fname_arg) (a 
 (* what glob.glob / shutil.unpack_archive / gzip.open answer *)
 Record fsys := {
   fs_glob : str -> list str;                        (* glob.glob(pattern, recursive=True) *)
+  fs_isdir : str -> bool;                           (* os.path.isdir(name) *)
   fs_unpack : str -> option str -> option str;      (* shutil.unpack_archive(name, tmpdir, format): Some tmpdir, None = it raises *)
-  fs_gunzip : str -> option str                     (* gzip.open(name).read(): the data, None = it raises *)
+  fs_gunzip : str -> option str;                    (* gzip.open(name).read(): the data, None = it raises *)
+  fs_get : str -> option str;                       (* requests.get(url) + raise_for_status: the payload, None = it raises *)
+  fs_gzdec : str -> option str;                     (* gzip.decompress(payload) *)
+  fs_dlprefix : str                                 (* NamedTemporaryFile(suffix=bname).name = this prefix + bname *)
 }.
 (* what the wrapped reader is finally called with *)
 Inductive leaf :=
 | LFile (name : str)                                (* a file name: opened by the reader *)
 | LData (data : str)                                (* io.BytesIO(decompressed data) *)
-| LStdin
-| LUrl (bname : str) (sub : url_sub).               (* the download branch is not followed further here *)
+| LStdin.
 Inductive rres := RFuel | RErr | ROk (l : list leaf).
-Definition glob_tail : str := bs "/**/*.*"%bs.
+Definition glob_tail : str := bs "/**/*"%bs.
 (* reduce(operator.add, [new_reader(n) for n in names]): all results in order; the first exception wins *)
 Fixpoint rconcat (rs : list rres) : rres :=
   match rs with
@@ -1188,13 +1191,16 @@ Fixpoint rconcat (rs : list rres) : rres :=
               | ROk a, ROk b => ROk (a ++ b)
               end
   end.
+Definition resolved_name (dd name0 : str) : str :=
+  if startswith (bs "!data/"%bs) name0 then dd ++ [slash] ++ removeprefix (bs "!data/"%bs) name0 else name0.
 Fixpoint resolve_run (fuel : nat) (fs : fsys) (dd ex : str) (isglob : bool) (name : str) (a : archive_arg) : rres :=
   match fuel with
   | O => RFuel
   | S k =>
       match resolve_g isglob dd ex (FStr name) a with
       | DGlob pat =>
-          match fs_glob fs pat with
+          (* main.py:211: directories matching the pattern are not files to read *)
+          match filter (fun n => negb (fs_isdir fs n)) (fs_glob fs pat) with
           | [] => RErr                                                        (* IOError: no file matching *)
           | names => rconcat (map (fun n => resolve_run k fs dd ex false n a) names)
           end
@@ -1206,7 +1212,18 @@ Fixpoint resolve_run (fuel : nat) (fs : fsys) (dd ex : str) (isglob : bool) (nam
       | DGz n => match fs_gunzip fs n with None => RErr | Some d => ROk [LData d] end
       | DPlain n => ROk [LFile n]
       | DStdin => ROk [LStdin]
-      | DUrl b sub => ROk [LUrl b sub]
+      | DUrl b sub =>
+          (* main.py:191-208: download; an archive is saved as <prefix><bname> and resolved again WITH the archive option and with
+             _isglob at its default, gzip data is decompressed in memory, anything else is data *)
+          match fs_get fs (resolved_name dd name) with
+          | None => RErr
+          | Some payload =>
+              match sub with
+              | UData => ROk [LData payload]
+              | UGz => match fs_gzdec fs payload with None => RErr | Some d => ROk [LData d] end
+              | UArchiveGlob | UArchiveUnpack _ => resolve_run k fs dd ex true (fs_dlprefix fs ++ b) a
+              end
+          end
       | _ => RErr
       end
   end.
@@ -1221,21 +1238,26 @@ Fixpoint unpack_get (k : str) (f : option str) (t : list (str * (option str * op
   | [] => None
   | (n, (g, v)) :: r => if str_eqb n k && opt_str_eqb g f then v else unpack_get k f r
   end.
-Definition fsys_of (globs : list (str * list str)) (unpacks : list (str * (option str * option str))) (gunzips : list (str * str)) : fsys :=
+Definition fsys_url (globs : list (str * list str)) (dirs : list str) (unpacks : list (str * (option str * option str)))
+                    (gunzips : list (str * str)) (gets gzdecs : list (str * str)) (prefix : str) : fsys :=
   {| fs_glob := fun p => match alist_get p globs with Some l => l | None => [] end;
+     fs_isdir := fun n => mem_str n dirs;
      fs_unpack := fun n f => unpack_get n f unpacks;
-     fs_gunzip := fun n => alist_get n gunzips |}.
+     fs_gunzip := fun n => alist_get n gunzips;
+     fs_get := fun u => alist_get u gets;
+     fs_gzdec := fun x => alist_get x gzdecs;
+     fs_dlprefix := prefix |}.
+Definition fsys_of globs dirs unpacks gunzips : fsys := fsys_url globs dirs unpacks gunzips [] [] [].
 Definition v_leaf (l : leaf) : val :=
   match l with
   | LFile n => VL [VS (bs "file"%bs); VS n]
   | LData d => VL [VS (bs "data"%bs); VS d]
   | LStdin => VL [VS (bs "stdin"%bs)]
-  | LUrl b _ => VL [VS (bs "url"%bs); VS b]
   end.
-Definition run_C03_rtree (fuel : nat) (globs : list (str * list str)) (unpacks : list (str * (option str * option str)))
-                         (gunzips : list (str * str)) (name : str) (a : archive_arg) : val :=
+Definition run_C03_rtree (fuel : nat) (globs : list (str * list str)) (dirs : list str) (unpacks : list (str * (option str * option str)))
+                         (gunzips gets gzdecs : list (str * str)) (prefix : str) (name : str) (a : archive_arg) : val :=
   VL [VB true;
-      match resolve_run fuel (fsys_of globs unpacks gunzips) [] [] true name a with
+      match resolve_run fuel (fsys_url globs dirs unpacks gunzips gets gzdecs prefix) [] [] true name a with
       | ROk l => VL (map v_leaf l)
       | RErr => VE (bs "Error"%bs)
       | RFuel => VE (bs "OutOfFuel"%bs)
@@ -1279,8 +1301,8 @@ Definition run_C03_hkind (io_binary has_encoding mode_b : bool) : val :=
 
 (* ------------------------------------------------------------------ writing into an archive and reading it back
    _resolve_archive (main.py:135-140): the file is written as <tmpdir>/basename(name), then shutil.make_archive(name, archive,
-   tmpdir) creates name + "." + <extension of the archive type>; reading that file: archive branch, <tmpdir>/**/*.* (main.py:226-228).
-   glob's *.* on one path component: the name contains a dot and does not begin with one (hidden files are skipped). *)
+   tmpdir) creates name + "." + <extension of the archive type>; reading that file: archive branch, <tmpdir>/**/* without
+   directories (main.py:226-229).  glob's * on one path component: the name does not begin with a dot (hidden files are skipped). *)
 Definition archive_type_ext (arch : str) : option str :=
   if name_is arch "zip"%bs then Some (bs "zip"%bs)
   else if name_is arch "tar"%bs then Some (bs "tar"%bs)
@@ -1288,13 +1310,14 @@ Definition archive_type_ext (arch : str) : option str :=
   else if name_is arch "bztar"%bs then Some (bs "tar.bz2"%bs)
   else if name_is arch "xztar"%bs then Some (bs "tar.xz"%bs)
   else None.
-Definition glob_star_dot_star (b : str) : bool := negb (startswith [dot] b) && contains [dot] b.
+Definition glob_star (b : str) : bool := negb (startswith [dot] b) && negb (match b with [] => true | _ => false end).
 (* the file system after objs.write(name, fmt, archive=...): one archive name.ext holding the member basename(name) *)
 Definition written_fs (tmp name ext : str) : fsys :=
-  {| fs_glob := fun p => if str_eqb p (tmp ++ glob_tail) && glob_star_dot_star (basename name)
+  {| fs_glob := fun p => if str_eqb p (tmp ++ glob_tail) && glob_star (basename name)
                          then [tmp ++ [slash] ++ basename name] else [];
+     fs_isdir := fun _ => false;
      fs_unpack := fun n f => if str_eqb n (name ++ dot :: ext) && match f with None => true | Some _ => false end then Some tmp else None;
-     fs_gunzip := fun _ => None |}.
+     fs_gunzip := fun _ => None; fs_get := fun _ => None; fs_gzdec := fun _ => None; fs_dlprefix := [] |}.
 (* reading the written archive: true = the member reaches the reader as a plain file *)
 Definition readback_ok (tmp name ext : str) : bool :=
   match resolve_run 4 (written_fs tmp name ext) [] [] true (name ++ dot :: ext) ANone with
